@@ -29,16 +29,28 @@ class Inconclusive(Exception):
 
 def build_harness(race=False):
     """(Re)build the harness binary against /repo's CURRENT working tree with the
-    verif tag.  A build failure is inconclusive (exit 2), never a violation."""
+    verif tag.  A build failure is inconclusive (exit 2), never a violation.
+    VERIF_REPO=<dir> builds against another checkout (used to try seeded changes
+    in scratch worktrees without touching /repo): the harness is copied and its
+    replace directive rewritten."""
     os.makedirs(BUILD, exist_ok=True)
-    # the replace directive of harness/go.mod points at /repo; go.sum is the repo's
-    shutil.copy(os.path.join(REPO, "go.sum"), os.path.join(HARNESS, "go.sum"))
-    out = os.path.join(BUILD, "amverif-race" if race else "amverif")
+    hdir = HARNESS
+    suffix = ""
+    if os.path.abspath(REPO) != "/repo":
+        suffix = "-" + hashlib.sha1(os.path.abspath(REPO).encode()).hexdigest()[:8]
+        hdir = os.path.join(BUILD, "harness" + suffix)
+        shutil.rmtree(hdir, ignore_errors=True)
+        shutil.copytree(HARNESS, hdir)
+        gm = open(os.path.join(hdir, "go.mod")).read().replace("=> /repo", "=> " + os.path.abspath(REPO))
+        open(os.path.join(hdir, "go.mod"), "w").write(gm)
+    # the replace directive of harness/go.mod points at the repo; go.sum is the repo's
+    shutil.copy(os.path.join(REPO, "go.sum"), os.path.join(hdir, "go.sum"))
+    out = os.path.join(BUILD, ("amverif-race" if race else "amverif") + suffix)
     cmd = [gobin(), "build", "-tags", "verif"]
     if race:
         cmd.append("-race")
     cmd += ["-o", out, "./cmd/amverif"]
-    p = subprocess.run(cmd, cwd=HARNESS, env=goenv(), stdout=subprocess.PIPE,
+    p = subprocess.run(cmd, cwd=hdir, env=goenv(), stdout=subprocess.PIPE,
                        stderr=subprocess.STDOUT, text=True)
     if p.returncode != 0:
         raise Inconclusive("harness build failed:\n" + p.stdout[-4000:])
